@@ -276,6 +276,21 @@ func runC03(tier string, seed uint64) {
 				s.walkFrom(b, "", "", 1, true, len(keys)+1, keys[0][:1])
 				s.walkFrom(b, "", "", 2, true, len(keys)+1, "!")
 			}
+			if kind == "mem" && len(keys) > 0 {
+				// a listing that starts behind the last key (a paginator's last round, a marker the client
+				// made up) shows nothing - it does not start over
+				last := keys[0]
+				for _, k := range keys {
+					if k > last {
+						last = k
+					}
+				}
+				for _, past := range []string{last + "0", "\xf4\x8f\xbf\xbf"} {
+					s.List(ListReq{Bucket: b, MaxKeys: -1, Marker: past, HasMarker: true})
+					s.List(ListReq{Bucket: b, MaxKeys: 2, V2: true, Marker: past, HasMarker: true, StartAfter: true})
+					s.List(ListReq{Bucket: b, Delim: "/", MaxKeys: 1, V2: true, Marker: past, HasMarker: true})
+				}
+			}
 			// delete everything again (mem: versioned, so remove every version for a clean slate)
 			for _, k := range nested {
 				s.Delete(b, k)
